@@ -4,31 +4,51 @@ Spec vocabulary is written from the property statement: the suffix alphabet has 
 characters (51**2 + 51**3 == 135,252), the successor chain enumerates all 2-character
 suffixes before the 3-character ones, allocation fails only after the last one.
 """
-from engine.spec import T, contract, exists, forall, implies, lemma
+from engine.spec import (T, contract, exists, forall, fs_exists, fs_read, fullmatch, implies, json_map, lemma,
+                         map_get, map_set, opaque, ymd)
 
 # 0-9 A-Z a-z minus the 11 look-alike characters (I O Q S g i j l p q y): 62 - 11 = 51
 ALPH = "0123456789ABCDEFGHJKLMNPRTUVWXYZabcdefhkmnorstuvwxz"
 assert len(ALPH) == 51 and len(ALPH) ** 2 + len(ALPH) ** 3 == 135252
 N = 51
+TOTAL = 135252
 
 
 def in_alph(c):
     return c in ALPH
 
 
+@opaque("bool")
 def wf_suffix(s):
     """A well-formed ID suffix: 2 or 3 characters of the alphabet."""
     return (len(s) == 2 or len(s) == 3) and all(in_alph(c) for c in s)
 
 
+def _ranges():
+    out, start = [], 0
+    for k in range(1, len(ALPH) + 1):
+        if k == len(ALPH) or ord(ALPH[k]) != ord(ALPH[k - 1]) + 1:
+            out.append((ALPH[start], ALPH[k - 1], start))
+            start = k
+    return tuple(out)
+
+
+RANGES = _ranges()  # maximal runs of consecutive code points of ALPH: (first, last, index of first)
+assert sum(ord(b) - ord(a) + 1 for a, b, _ in RANGES) == N
+
+
 def pos(c):
     """Index of character c in ALPH (0 when absent; only used under wf_suffix)."""
     r = 0
-    for k, a in enumerate(ALPH):
-        r = k if c == a else r
+    for lo, hi, base in RANGES:
+        r = base + ord(c) - ord(lo) if ord(lo) <= ord(c) and ord(c) <= ord(hi) else r
     return r
 
 
+assert all(pos(a) == k for k, a in enumerate(ALPH))
+
+
+@opaque("int")
 def rank(s):
     """Position of suffix s in the successor chain: '00' is 0, 'zz' is 51**2-1, '000' is 51**2."""
     if len(s) == 2:
@@ -37,12 +57,13 @@ def rank(s):
 
 
 LAST = "zzz"
-assert rank("00") == 0 and rank("zz") == N * N - 1 and rank("000") == N * N and rank(LAST) == 135251
+assert rank("00") == 0 and rank("zz") == N * N - 1 and rank("000") == N * N and rank(LAST) == TOTAL - 1
 
 contract(
     "zorg.storage.sql._zid_manager:_get_next_id",
     props=["C07"],
     args={"last_id": T.bstr(2, 3)},
+    returns=T.bstr(2, 3),
     requires={"wf": "wf_suffix(last_id)"},
     ensures={
         "wf": "wf_suffix(result)",
@@ -51,4 +72,113 @@ contract(
     raises={"RuntimeError": "last_id == LAST"},
     note="complete unrolling: the length is case-split (2|3), so every loop has a concrete bound and "
     "the unwinding assertion is the infeasibility of one more iteration",
+)
+
+lemma(
+    "C07/rank-injective",
+    props=["C07"],
+    vars={"a": T.bstr(2, 3), "b": T.bstr(2, 3)},
+    assumes={"wf": "wf_suffix(a) and wf_suffix(b)"},
+    shows={
+        "injective": "implies(rank(a) == rank(b), a == b)",
+        "range": "0 <= rank(a) and rank(a) < TOTAL",
+        "last": "implies(rank(a) == TOTAL - 1, a == LAST)",
+    },
+    timeout_ms=90000,
+    note="rank is a bijection between well-formed suffixes and 0..135251, so 'rank increases by one' "
+    "enumerates every suffix exactly once",
+)
+
+# ---------------------------------------------------------------------------------------------
+# ZIDManager.get_next over the ghost map stored in next_ids.json (A-FS, json codec)
+# ---------------------------------------------------------------------------------------------
+from zorg.storage.sql._zid_manager import ZIDManager  # noqa: E402
+
+PATH = T.rec("Path", {"s": T.str()})
+MANAGER = T.rec("ZIDManager", {"_next_ids_path": PATH, "_mutable_next_id_map": T.const(None)}, cls=ZIDManager)
+
+
+def stored(self):
+    """The abstract state: date part -> next suffix, a function of the file system only."""
+    return json_map(fs_read(self._next_ids_path)) if fs_exists(self._next_ids_path) else {}
+
+
+def dp(date):
+    return ymd(date)[2:]
+
+
+def wf_len(s):
+    """Length part of wf_suffix, stated separately because wf_suffix is opaque on unbounded strings."""
+    return len(s) == 2 or len(s) == 3
+
+
+def cur(self, date):
+    return map_get(stored(self), dp(date), "00")
+
+
+contract(
+    "zorg.storage.sql._zid_manager:ZIDManager.get_next",
+    props=["C07"],
+    args={"self": MANAGER, "date": T.date()},
+    requires={"file-invariant": "wf_len(cur(self, date)) and wf_suffix(cur(self, date))"},
+    ensures={
+        "format": "result == dp(date) + '#' + old(cur(self, date))",
+        "persisted-before-return": "fs_exists(self._next_ids_path)",
+        "successor-stored": "wf_len(cur(self, date)) and wf_suffix(cur(self, date)) and rank(cur(self, date)) == rank(old(cur(self, date))) + 1",
+        "other-dates-unchanged": "stored(self) == map_set(old(stored(self)), dp(date), cur(self, date))",
+        "no-in-memory-state": "self._mutable_next_id_map is None",
+    },
+    raises={"RuntimeError": "False"},
+    note="raises: the statement allows failure only after all 135,252 suffixes of the date have been handed "
+    "out; no state of next_ids.json represents that, so any raise is early (F2: cur == 'zzz')",
+)
+
+lemma(
+    "C07/history-fresh",
+    props=["C07"],
+    vars={"H": T.map(T.int(), T.bool()), "nxt": T.int(), "r": T.int()},
+    assumes={
+        "inv": "forall(None, None, lambda q: (q in H) == (0 <= q and q < nxt))",
+        "nonneg": "0 <= nxt",
+    },
+    shows={
+        "fresh": "not (nxt in H)",
+        "inv-preserved": "(r in map_set(H, nxt, True)) == (0 <= r and r < nxt + 1)",
+    },
+    note="per date: H = ranks handed out, nxt = rank of the stored suffix. get_next returns the suffix of rank "
+    "nxt and stores rank nxt+1 (contract clauses format/successor-stored), so the returned suffix was never "
+    "handed out before and the invariant H = [0, nxt) is kept; restart is the identity because the abstract "
+    "state `stored` is a function of the file system only (clause no-in-memory-state).",
+)
+
+lemma(
+    "C07/zid-injective",
+    props=["C07"],
+    vars={"d1": T.str(), "d2": T.str(), "s1": T.str(), "s2": T.str()},
+    assumes={"dates": "len(d1) == 6 and len(d2) == 6"},
+    shows={"injective": "implies(d1 + '#' + s1 == d2 + '#' + s2, d1 == d2 and s1 == s2)"},
+    note="ZIDs of different dates or different suffixes are different strings",
+)
+
+# ---------------------------------------------------------------------------------------------
+# recognition on recompilation: every allocatable ZID satisfies dates.is_zid
+# ---------------------------------------------------------------------------------------------
+
+
+def allocatable(z):
+    """YYMMDD#XX or YYMMDD#XXX over the suffix alphabet."""
+    return (
+        (len(z) == 9 or len(z) == 10)
+        and all(c in "0123456789" for c in z[:6])
+        and z[6] == "#"
+        and all(in_alph(c) for c in z[7:])
+    )
+
+
+contract(
+    "zorg.shared.dates:is_zid",
+    props=["C07"],
+    args={"zid": T.bstr(9, 10)},
+    requires={"allocatable": "allocatable(zid)"},
+    ensures={"recognised": "result == True"},
 )
